@@ -82,7 +82,8 @@ def invalid_lexeme_cases(rng):
         out.append(("var x = '%s';" % c, 'control character 0x%02x as a character literal' % ord(c)))
         out.append(('var %sx = 1;' % c, 'control character 0x%02x between tokens' % ord(c)))
     for bad in ('"\\q"', '"\\x4"', '"\\xg0"', '"\\u{110000}"', '"\\u{d800}"', "''", "'ab'", '"abc', "'a", '0x', '0b', '12abc', '1u7', '0xffzz', '@', '$', '`', '#',
-                '"\\u{41"', "'\\u{41'", '"\\u{20ac x"', '"\\u41"', '1bool', '65char8', '0void', '0b1bool', '0x1void', '1i63', '1u', '1I32', '1f32', '1usiz', '1i1288'):
+                '"\\u{41"', "'\\u{41'", '"\\u{20ac x"', '"\\u41"', '1bool', '65char8', '0void', '0b1bool', '0x1void', '1i63', '1u', '1I32', '1f32', '1usiz', '1i1288',
+                '340282366920938463463374607431768211456u129', '9' * 50 + 'q', '0x1' + '0' * 32 + 'zz', '340282366920938463463374607431768211456', '"\\u{d7ff}\\u{dfff}"', '"long enough \\u{dc00}"'):
         out.append(('var x = %s;' % bad, 'invalid lexeme %s' % bad))
     # literals with TWO faults: a first fault inside, and no closing quote; the first fault is the one that is reported
     for q in ('"', "'"):
